@@ -37,9 +37,9 @@ def _mc_jobs(tier):
     jobs = []
     S4 = (0, 1, 2, 3)
     if tier == "quick":
-        nparts = 3
         for strict in (True, False):
             for live in (False, True):
+                nparts = 2 if live else 4       # live assignment keeps invalid states out: fewer states
                 for p in range(nparts):
                     jobs.append((f"D-r2-d3-{'s' if strict else 'n'}{'l' if live else 'x'}-{p}/{nparts}",
                                  consts(strict=strict, live=live, depth=3, rank=2, sizes=S4, part=p, nparts=nparts),
@@ -51,17 +51,24 @@ def _mc_jobs(tier):
                                     kinds=("recon", "assign", "toggle")), 2, True))
     else:
         nparts = 8
+        def mode(st, lv):
+            return ("s" if st else "n") + ("l" if lv else "x")
         for strict in (True, False):
             for live in (False, True):
                 for p in range(nparts):
-                    jobs.append((f"D-r2-d4-{'s' if strict else 'n'}{'l' if live else 'x'}-{p}/{nparts}",
+                    jobs.append((f"D-r2-d4-{mode(strict, live)}-{p}/{nparts}",
                                  consts(strict=strict, live=live, depth=4, rank=2, sizes=S4, part=p, nparts=nparts),
                                  1, p == 0))
-        for strict in (True, False):
+        # rank 3: programs of 5 operations over sizes {0,2,3}, of 4 operations over sizes 0..3
+        for strict, live in ((True, True), (True, False), (False, False)):
             for p in range(nparts):
-                jobs.append((f"D-r3-d4-{'s' if strict else 'n'}-{p}/{nparts}",
-                             consts(strict=strict, live=strict, depth=4, rank=3, sizes=(0, 2, 3), part=p, nparts=nparts),
+                jobs.append((f"D-r3-d4-{mode(strict, live)}-{p}/{nparts}",
+                             consts(strict=strict, live=live, depth=4, rank=3, sizes=(0, 2, 3), part=p, nparts=nparts),
                              1, p == 0))
+        for strict, live in ((True, False), (False, True)):
+            for p in range(4):
+                jobs.append((f"D-r3-d3-{mode(strict, live)}-{p}/4",
+                             consts(strict=strict, live=live, depth=3, rank=3, sizes=S4, part=p, nparts=4), 1, p == 0))
         for strict in (True, False):
             jobs.append((f"P-r3-{'s' if strict else 'n'}",
                          consts(strict=strict, live=False, depth=1000, rank=3, sizes=S4, kinds=("recon",)), 4, True))
@@ -216,7 +223,9 @@ def _rand_op(rng, st, wd):
     return {"a": "set_live", "b": rng.random() < 0.5}
 
 
-def random_traces(rng, count, steps=24, wd=4):
+def random_traces(rng, count, steps=24, wd=4, on_observe_error=None):
+    """Random programs on real objects.  An observation that raises (e.g. `.valid`) cannot be put
+    into a trace for TLC: it is reported through on_observe_error and the trace ends before it."""
     traces = []
     for _ in range(count):
         hdr = {"wd": wd, "strict": rng.random() < 0.5, "live": rng.random() < 0.5, "param": rng.random() < 0.4,
@@ -228,9 +237,15 @@ def random_traces(rng, count, steps=24, wd=4):
         for _ in range(steps):
             o = _rand_op(rng, st, wd)
             ret = impl.apply(o)
-            st = impl.project()
+            nst = impl.project()
+            if not isinstance(nst["valid"], bool) or not isinstance(nst["ndim"], int):
+                if on_observe_error:
+                    on_observe_error(hdr, [e["op"] for e in evs] + [o], st, o, ret, nst)
+                break
+            st = nst
             evs.append({"op": o, "ret": ret, "st": st})
-        traces.append({"hdr": {"init": init, "cfg": hdr, "waive": []}, "ev": evs})
+        if evs:
+            traces.append({"hdr": {"init": init, "cfg": hdr, "waive": []}, "ev": evs})
     return traces
 
 
@@ -328,17 +343,18 @@ def run_constraints(chk: Check, tier: str, rng: random.Random):
     t0 = time.time()
     quick = tier == "quick"
     S4 = (0, 1, 2, 3)
-    gens = [(f"G-{'s' if s else 'n'}{'l' if l else 'x'}",
-             consts(strict=s, live=l, depth=2 if quick else 3, rank=2, sizes=S4 if quick or s != l else (0, 2, 3)))
+    gens = [(f"G-{'s' if s else 'n'}{'l' if l else 'x'}", consts(strict=s, live=l, depth=2, rank=2, sizes=S4))
             for s in (True, False) for l in (False, True)]
+    # non-strict constraints on overlapping positive / negative dims of a 1-d tensor (the
+    # consistency test of an edit), deep and tiny
+    gens.append(("G-overlap", consts(strict=False, live=False, depth=3, rank=1, sizes=(1, 2, 3), wd=1)))
+    gens.append(("G-toggle", consts(strict=True, live=False, depth=2 if quick else 3, rank=2, sizes=(1, 2), wd=2,
+                                    kinds=("recon", "assign", "toggle", "probe"))))
     if not quick:
+        gens.append(("G-d3-sx", consts(strict=True, live=False, depth=3, rank=2, sizes=(0, 2, 3))))
+        gens.append(("G-d3-nl", consts(strict=False, live=True, depth=3, rank=2, sizes=(0, 2, 3))))
         gens.append(("G-r3-sl", consts(strict=True, live=True, depth=2, rank=3, sizes=(0, 2, 3))))
         gens.append(("G-r3-nx", consts(strict=False, live=False, depth=2, rank=3, sizes=(0, 2, 3))))
-        gens.append(("G-toggle", consts(strict=True, live=False, depth=3, rank=2, sizes=(1, 2), wd=2,
-                                        kinds=("recon", "assign", "toggle", "probe"))))
-    else:
-        gens.append(("G-toggle", consts(strict=True, live=False, depth=2, rank=2, sizes=(1, 2), wd=2,
-                                        kinds=("recon", "assign", "toggle", "probe"))))
     jobs = _mc_jobs(tier)
     ex = ThreadPoolExecutor(max_workers=16)
     gen_f = [ex.submit(_gen, j) for j in gens]          # first: the python side waits for these
@@ -347,7 +363,16 @@ def run_constraints(chk: Check, tier: str, rng: random.Random):
 
     # ---- B (driver part, python only) while TLC is busy
     ntr = 120 if quick else 2500
-    traces = random_traces(rng, ntr)
+    def observe_error(hdr, ops, state, op, ret, nst):
+        rep = {"hdr": hdr, "ops": ops, "state": state, "op": op, "observed": {"ret": ret, "st": nst}}
+        sig = {"clause": "ObservationRaises", "op": op.get("a"), "site": "ShapedTensor/random-program",
+               "storage": "parameter" if hdr.get("param") else "buffer",
+               "raised": str(nst["valid"] if not isinstance(nst["valid"], bool) else nst["ndim"])}
+        chk.violation(sig, rep)
+
+    traces = random_traces(rng, ntr, on_observe_error=observe_error)
+    if not traces:
+        raise MachineryFailure("constraints: no trace could be recorded")
 
     # ---- A: every emitted edge (quick: a stratified sample) on real objects
     budget = 5000 if quick else None
